@@ -60,6 +60,34 @@ def main():
             return Predicated(pred, ps)
         raise ValueError(t)
 
+    def rename(s, rn):
+        tn = type(s).__name__
+        if tn == 'Atomic':
+            j = rn['atoms'].get(f'{s.index},{s.subscript}')
+            return Atomic(*j) if j else s
+        if tn == 'Predicated':
+            p = s.predicate
+            if p.index >= 0:
+                j = rn['preds'].get(f'{p.index},{p.subscript},{p.arity}')
+                if j:
+                    p = Predicate(j[0], j[1], p.arity)
+            ps = []
+            for x_ in s.params:
+                if type(x_).__name__ == 'Constant':
+                    j = rn['consts'].get(f'{x_.index},{x_.subscript}')
+                    ps.append(Constant(*j) if j else x_)
+                else:
+                    j = rn['vars'].get(f'{x_.index},{x_.subscript}')
+                    ps.append(Variable(*j) if j else x_)
+            return Predicated(p, tuple(ps))
+        if tn == 'Operated':
+            return s.operator(*(rename(x_, rn) for x_ in s))
+        if tn == 'Quantified':
+            v = s.variable
+            j = rn['vars'].get(f'{v.index},{v.subscript}')
+            return Quantified(s.quantifier, Variable(*j) if j else v, rename(s.sentence, rn))
+        raise ValueError(s)
+
     def cnum(c):
         return c.subscript * CONST_W + c.index
 
@@ -219,6 +247,13 @@ def main():
             else:
                 prems = [build(p) for p in job['premises']]
                 concl = build(job['conclusion'])
+                arg = Argument(concl, prems)
+            if job.get('rename') or job.get('extra') is not None:
+                if job.get('rename'):
+                    prems = [rename(p, job['rename']) for p in prems]
+                    concl = rename(concl, job['rename'])
+                if job.get('extra') is not None:
+                    prems = prems + [build(job['extra'])]
                 arg = Argument(concl, prems)
             opts = dict(job.get('opts') or {})
             if job.get('models'):
